@@ -113,6 +113,8 @@ def run(res: Results, idx: Index, tier: str) -> None:
                 res.unresolved("R-C19b", site, k, "wrapper reads locals()", cls_name)
                 continue
             used = nm in loaded and param_value_used(w, nm)
+            if used and not _forwarded_value_used(idx, sp, w, nm):
+                used = False
             if used:
                 res.ok("R-C19b", site, k, "", cls_name)
                 continue
@@ -158,6 +160,41 @@ def run(res: Results, idx: Index, tier: str) -> None:
         for inst in sub.instances:
             if inst.rule == "R-C14g":
                 res.add("R-C19i", inst.status, inst.site, f"R-C14g::{inst.key}", f"[C14 R-C14g] {inst.detail}", inst.func)
+
+
+def _forwarded_value_used(idx: Index, sp, w: ast.AST, nm: str) -> bool:
+    """False only when EVERY read of parameter `nm` in the substitute hands it to a package function that resolves and whose
+    corresponding parameter is deleted / never read (one level deep): the argument is then accepted and dropped by the callee."""
+    loads = [x for x in ast.walk(w) if isinstance(x, ast.Name) and x.id == nm and isinstance(x.ctx, ast.Load)]
+    if not loads:
+        return True
+    for x in loads:
+        par = getattr(x, "parent", None)
+        call = None
+        kwname = None
+        pos = None
+        if isinstance(par, ast.keyword) and isinstance(getattr(par, "parent", None), ast.Call):
+            call, kwname = par.parent, par.arg
+        elif isinstance(par, ast.Call) and x in par.args:
+            call, pos = par, par.args.index(x)
+        if call is None:
+            return True          # used in some other way (test, arithmetic, bind keyword, return …)
+        cn = call_name(call) or ""
+        if not cn or "." in cn and not cn.startswith(("self.", "cls.")):
+            return True
+        g = idx.resolve_func(sp.module, cn, cls=sp.cls)
+        if g is None:
+            return True
+        ga = g.node.args  # type: ignore[attr-defined]
+        gparams = [a.arg for a in ga.posonlyargs + ga.args]
+        if gparams and gparams[0] in ("self", "cls") and cn.startswith(("self.", "cls.")):
+            gparams = gparams[1:]
+        target = kwname if kwname is not None else (gparams[pos] if pos is not None and pos < len(gparams) else None)
+        if target is None or target not in [a.arg for a in ga.posonlyargs + ga.args + ga.kwonlyargs]:
+            return True
+        if param_value_used(g.node, target):
+            return True
+    return False
 
 
 def rule_f(res: Results, idx: Index, tier: str) -> None:
